@@ -179,6 +179,7 @@ inductive ChainOK (g : Graph) (p : Params) : Nat → RPath → Prop
       h.node = p.payee → p.finalCltv ≤ h.cltv →
       ChainOK g p src [h]
   | cons (src : Nat) (h h' : RHop) (t : RPath) (c c' : Chan) (f : Nat) :
+      h.blinded = false →   -- a blinded path is all-or-nothing and ends the path (its BlindedTail)
       resolve g p src h = some c → HopOK g p c (pathAmount (h :: h' :: t)) →
       resolve g p h.node h' = some c' →
       compute_fees (pathAmount (h' :: t)) c'.feeBase c'.feeProp = some f → f ≤ h.fee →
@@ -259,7 +260,7 @@ def chainOk (g : Graph) (p : Params) : Nat → RPath → Bool
   | src, h :: h' :: t =>
     match resolve g p src h, resolve g p h.node h' with
     | some c, some c' =>
-      hopOk g p c (pathAmount (h :: h' :: t)) &&
+      !h.blinded && hopOk g p c (pathAmount (h :: h' :: t)) &&
       (match compute_fees (pathAmount (h' :: t)) c'.feeBase c'.feeProp with
        | some f => decide (f ≤ h.fee)
        | none => false) &&
